@@ -4,12 +4,13 @@ specification can judge Canonical / NoAdjEq / Consistent / lock-step."""
 import copy, warnings
 import numpy as np
 from .common import NONE, use_repo
-from .enc import DT2NP, dt_of, enc_seq, enc_val, dec_val, dec_seq
+from .enc import DT2NP as RAW_NP
 
 use_repo()
 warnings.simplefilter("ignore")
 from npstructures import RaggedArray, RunLengthArray, RunLength2dArray, RunLengthRaggedArray  # noqa: E402
 from . import exec_ragged as ER  # noqa: E402
+from .exec_ragged import DT2NP, dec_seq, dec_val, enc_seq, enc_val, out_dt as dt_of  # noqa: E402   (aware of the high-bits realisation)
 
 UF = ER.UFUNCS
 
@@ -127,7 +128,7 @@ def py_operand(o):
     if k == "np":
         return DT2NP[o[1]](dec_val(o[2], o[1]))
     if k == "py":
-        return bool(o[2]) if o[1] == "pybool" else int(o[2]) if o[1] == "pyint" else dec_val(o[2], "f8")
+        return bool(o[2]) if o[1] == "pybool" else (int(o[2]) << ER._HI[0]) if o[1] == "pyint" else dec_val(o[2], "f8")
     if k == "col":
         return dec_seq(o[2], o[1]).reshape(-1, 1)
     if k == "obj":
@@ -212,12 +213,12 @@ def op_getitem(c, o):
     k = idx[0]
     idt = o.get("idxdt", "i8")                      # narrow index dtypes only where every position fits
     pos = [int(idx[1])] if k == "int" else [int(i) for i in idx[1]] if k == "list" else []
-    if idt != "i8" and not all(np.iinfo(DT2NP[idt]).min <= p <= np.iinfo(DT2NP[idt]).max for p in pos):
+    if idt != "i8" and not all(np.iinfo(RAW_NP[idt]).min <= p <= np.iinfo(RAW_NP[idt]).max for p in pos):
         idt = "i8"
     if k == "int":
-        res = r[int(idx[1])] if not o.get("npint") else r[DT2NP[idt](idx[1])]
+        res = r[int(idx[1])] if not o.get("npint") else r[RAW_NP[idt](idx[1])]
     elif k == "list":
-        res = r[[int(i) for i in idx[1]]] if o.get("listkind", "list") == "list" else r[np.array(idx[1], dtype=DT2NP[idt])]
+        res = r[[int(i) for i in idx[1]]] if o.get("listkind", "list") == "list" else r[np.array(idx[1], dtype=RAW_NP[idt])]
     elif k == "mask":
         res = r[np.array(idx[1], dtype=bool)]
     elif k == "rlmask":
@@ -367,12 +368,88 @@ def execute(case, opts=None):
     del _SOURCES[:]
     _WIDE[0] = False
     _OBJVIA[0] = o.get("objvia", "direct")
+    mode = hi_ok(case) if o.get("hi") else None
+    ER._HI[0] = int(o["hi"]) if mode else 0
+    ER._HI_KEEP[0] = mode == "keep"
     try:
         out = OPS[case[0]](case, o)
         if not sources_unchanged():
             return ["mutated", "an array the operand was derived from changed"]
         return out
+    except ER.HiBroken:
+        return ["broken", "the result of the scaled run is not a multiple of the scale"]
     except AssertionError:
         return ["raised", "AssertionError"]
     except Exception as e:
         return ["raised", type(e).__name__]
+    finally:
+        ER._HI[0] = 0
+        ER._HI_KEEP[0] = False
+
+
+# ------------------------------------------------------------------ where the high-bits realisation (exec_ragged) is valid here
+def _obj_rows(obj):
+    return obj[2] if obj[0] in ("matrix", "ragged") else None
+
+
+def hi_ok(case):
+    try:
+        op = case[0]
+        N = ("i2", "u2")
+        if op == "rl_roundtrip":
+            return "relabel" if case[1] in N and case[3] in ("to_array", "asarray", "encoding") and not any(isinstance(v, list) for v in case[2]) else None
+        if op == "rl_getitem":
+            return "relabel" if case[1] in N else None
+        if op in ("rl_ufunc", "rl2_ufunc"):
+            f, a, b = case[1], case[2], case[3]
+            opds = [x for x in (a, b) if x[0] != "none"]
+            dts = set()
+            for x in opds:
+                if x[0] == "rl":
+                    dts.add(x[1])
+                elif x[0] == "obj":
+                    if _obj_rows(x[1]) is None:
+                        return None
+                    dts.add(x[1][1])
+                elif x[0] in ("np", "col"):
+                    dts.add(x[1])
+                elif x[0] == "py" and x[1] == "pyint":
+                    pass
+                else:
+                    return None
+            if len(dts) != 1 or next(iter(dts)) not in N:
+                return None
+            dt = next(iter(dts))
+            if any(x[0] == "py" and not ER._rng(dt)[0] <= x[2] <= ER._rng(dt)[1] for x in opds):
+                return None
+            return "relabel" if (f in ER.HI_BIN and len(opds) == 2) or (f in ER.HI_UN and len(opds) == 1) else None
+        if op == "rl_reduce":
+            name, dt, seq = case[1], case[2], case[3]
+            if dt not in N:
+                return None
+            if name in ("max", "any", "all"):
+                return "relabel"
+            return "keep" if name in ("sum", "mean") and ER._sums_fit([seq], dt) else None
+        if op == "rl_concat":
+            return "relabel" if {a[0] for a in case[1]} in ({"i2"}, {"u2"}) else None
+        if op == "rl2_getitem":
+            obj = case[1]
+            return "relabel" if _obj_rows(obj) is not None and obj[1] in N else None
+        if op == "rl2_func":
+            name, obj = case[1], case[2]
+            rows = _obj_rows(obj)
+            if rows is None or obj[1] not in N:
+                return None
+            if name in ("to_array", "max", "any", "all", "colany", "ravel"):
+                return "relabel"
+            if name in ("sum", "mean"):
+                return "keep" if ER._sums_fit(rows, obj[1]) else None
+            if name in ("colsum", "colmean"):
+                m = max([len(r) for r in rows] or [0])
+                return "keep" if ER._sums_fit([[r[j] for r in rows if len(r) > j] for j in range(m)], obj[1]) else None
+            return None
+        if op == "rl2_concat":
+            return "relabel" if all(_obj_rows(x) is not None for x in case[1]) and {x[1] for x in case[1]} in ({"i2"}, {"u2"}) else None
+    except Exception:
+        return None
+    return None
